@@ -40,6 +40,13 @@ def run_case(ctx, case_seed, kind=None):
         spy = SpyCassette(async_over(inner) if kind == 'async' else inner)
         rec = TapeRecorder(spy)
         rec.enable_recording()
+        pre = kind != 'async' and rng.random() < 0.3
+        if pre:
+            # the recorder has a past (recorded / replayed / failed replay / interrupted / discarded operations): the property
+            # quantifies over every complete recording, whenever it was made
+            from vlib.history import give_past
+            give_past(rec, spy, case_seed + 5000, ctx, like=prog)
+            ctx.count('cases_with_recorder_history')
         live = Built(prog, rec, World(prog['seed_world'], raise_rate=prog['opts']['raise_rate']))
         out_live = live.run('live')
         if kind == 'async':
@@ -62,7 +69,7 @@ def run_case(ctx, case_seed, kind=None):
         ctx.count('cassette_' + kind)
         rid = saves[0][2]
         # ---- replay -------------------------------------------------------------------------------------
-        fresh = rng.random() < 0.5
+        fresh = rng.random() < 0.5 and not pre
         rec2 = TapeRecorder(box.reader()) if (fresh or kind == 'async') else rec
         if not fresh and rec2 is rec:
             spy.inner = box.reader() if kind != 'memory' else spy.inner
